@@ -31,7 +31,29 @@ MODES = {
 CFG = "indent_columns=4\nindent_with_tabs=0\nnl_end_of_file=force\nnl_end_of_file_min=1\nnl_max=2\n"
 
 
+def header_file():
+    from ..common import scratch_root
+    p = os.path.join(scratch_root(), 'c13-header.txt')
+    if not os.path.exists(p):
+        tmp = p + '.%d' % os.getpid()
+        with open(tmp, 'wb') as f:
+            f.write(b'/* inserted header */\n')
+        os.replace(tmp, p)
+    return p
+
+
+def cfg_for(sc):
+    """An empty (or blank) source is only rewritten when the configuration inserts text."""
+    if sc['state'] in ('empty', 'blank'):
+        return CFG + 'cmt_insert_file_header = "%s"\n' % header_file()
+    return CFG
+
+
 def source(kind, size):
+    if kind == 'empty':
+        return b''
+    if kind == 'blank':
+        return b'\n'
     body = b''
     i = 0
     unit = b'int f%d(int a){int b=a;\nif(a){b=b+%d;}\nreturn b;}\n'
@@ -58,10 +80,10 @@ def scenarios(tier):
     out = []
     sizes = {'small': 60, 'page': 5000, 'big': 20000}
     for mode in MODES:
-        for state in ('needs', 'formatted', 'fails-early', 'fails-late', 'shrinks'):
+        for state in ('needs', 'formatted', 'fails-early', 'fails-late', 'shrinks', 'empty', 'blank'):
             for prior in (('none',) if 'no-backup' in mode else ('none', 'valid', 'stale')):
                 for sz in sizes:
-                    if state.startswith('fails') and sz != 'small':
+                    if (state.startswith('fails') or state in ('empty', 'blank')) and sz != 'small':
                         continue
                     if state == 'shrinks' and (sz == 'small' or 'no-backup' in mode):
                         continue
@@ -72,7 +94,7 @@ def scenarios(tier):
 def setup(d, sc, F):
     x = source(sc['state'], sc['nbytes'])
     if sc['state'] == 'formatted':
-        x = F(x)
+        x = F(x, cfg_for(sc))
     with open(os.path.join(d, NAME), 'wb') as f:
         f.write(x)
     if sc['prior'] == 'valid':
@@ -123,10 +145,10 @@ def judge(sc, orig, formatted, snap, res, injected_fault, killed):
 _fmt_cache = {}
 
 
-def _fmt(x):
+def _fmt(x, cfg=CFG):
     """F(x) with a per-content cache file in the scratch root (shared by the worker processes)."""
     from ..common import scratch_root
-    k = sha(x)
+    k = sha(x + b'|' + cfg.encode())
     if k in _fmt_cache:
         return _fmt_cache[k]
     p = os.path.join(scratch_root(), 'c13fmt-' + k)
@@ -134,7 +156,7 @@ def _fmt(x):
         with open(p, 'rb') as f:
             out = f.read()
     else:
-        out = fmt.fmt(x, 'C', CFG).out
+        out = fmt.fmt(x, 'C', cfg).out
         if out is not None:
             with open(p + '.%d' % os.getpid(), 'wb') as f:
                 f.write(out)
@@ -151,12 +173,12 @@ def _reference(sc):
     """Phase 1: reference run under strace; returns the list of points to visit."""
     b = build.binary('plain')
     top = case_dir('c13ref')
-    args = ['-q', '-c', fmt.cfg_file(CFG), '-l', 'C'] + MODES[sc['mode']]
+    args = ['-q', '-c', fmt.cfg_file(cfg_for(sc)), '-l', 'C'] + MODES[sc['mode']]
     try:
         d = os.path.join(top, 'ref')
         os.makedirs(d)
         orig = setup(d, sc, _fmt)
-        formatted = _fmt(orig) if not sc['state'].startswith('fails') else None
+        formatted = _fmt(orig, cfg_for(sc)) if not sc['state'].startswith('fails') else None
         res, tr, _ = faults.strace_run(b, args, d, trace_path=os.path.join(top, 'ref.trace'))
         probs = [(kind, 'no fault', desc) for kind, desc in judge(sc, orig, formatted, faults.snapshot(d), res, False, False)]
         win = faults.window(tr, '"' + NAME)
@@ -197,12 +219,12 @@ def _point(t):
     sc, (ptype, tag, inject, fsize, ign) = t
     b = build.binary('plain')
     top = case_dir('c13')
-    args = ['-q', '-c', fmt.cfg_file(CFG), '-l', 'C'] + MODES[sc['mode']]
+    args = ['-q', '-c', fmt.cfg_file(cfg_for(sc)), '-l', 'C'] + MODES[sc['mode']]
     try:
         d = os.path.join(top, 'r')
         os.makedirs(d)
         orig = setup(d, sc, _fmt)
-        formatted = _fmt(orig)
+        formatted = _fmt(orig, cfg_for(sc))
         if ptype == 'fsize':
             # no strace here: the limit would apply to strace's own trace file too
             res, inj = run.run(b, args, cwd=d, fsize=fsize, ignore_xfsz=ign), 0
@@ -263,7 +285,7 @@ def check(ctx):
             tasks.append((sc, p))
         for kind, tag, desc in r['probs']:
             ctx.violation(root_key(sc, kind, tag), 'scenario %s, %s: %s' % (sc_id(sc), tag, desc),
-                          files={'config.cfg': CFG, NAME: source(sc['state'], sc['nbytes'])},
+                          files={'config.cfg': cfg_for(sc), NAME: source(sc['state'], sc['nbytes'])},
                           argv=['uncrustify', '-c', 'config.cfg', '-l', 'C'] + MODES[sc['mode']])
         if len(ctx.samples) < 3 and r['window']:
             ctx.sample(dict(scenario=sc_id(sc), syscalls_after_first_touch=r['window'][:40]))
@@ -278,7 +300,7 @@ def check(ctx):
         ctx.nt(scid, tasks[k][1][1])
         for kind, tag, desc in probs:
             ctx.violation(root_key(sc, kind, tag), 'scenario %s, %s: %s' % (scid, tag, desc),
-                          files={'config.cfg': CFG, NAME: source(sc['state'], sc['nbytes']), 'fault.txt': tag + '\n' + ' '.join(tasks[k][1][2])},
+                          files={'config.cfg': cfg_for(sc), NAME: source(sc['state'], sc['nbytes']), 'fault.txt': tag + '\n' + ' '.join(tasks[k][1][2])},
                           argv=['uncrustify', '-c', 'config.cfg', '-l', 'C'] + MODES[sc['mode']])
     ctx.assumptions += ['atomicity inside rename(2) and durability across power loss are the kernel\'s',
                         'with a prior backup whose md5 matches the current content the backup clause is left to C14',
